@@ -1558,7 +1558,15 @@ def build(template_text: str, repo: str, unit: str) -> Built:
                 ctxt = ("pub " if fs is not None and fs.kind == IDENT and fs.text == "const" else "") + text_of(ctoks)
                 emit(f"// ---- auto-extracted (R15) {rel}:{sf.line_of(citem.start)} :: const {cname} ----")
                 init = ctxt.split("=", 1)[1] if "=" in ctxt else ""
-                if re.search(r"[A-Za-z_]\w*\s*(::\s*<[^>]*>\s*)?\(", init):
+                m_lit = re.fullmatch(r"\s*(0x[0-9a-fA-F_]+|\d[\d_]*)_?(u8|u16|u32|u64|u128)\s*\.\s*to_(be|le)_bytes\s*\(\s*\)\s*;?\s*", init)
+                if m_lit:
+                    # `<literal>.to_be_bytes()`: evaluated here (constant folding of a literal), the value stays visible
+                    nbytes = int(m_lit.group(2)[1:]) // 8
+                    val = int(m_lit.group(1).replace("_", ""), 0)
+                    bs = val.to_bytes(nbytes, "big" if m_lit.group(3) == "be" else "little")
+                    ctxt = ctxt.split("=", 1)[0] + "= [" + ", ".join(f"{b}u8" for b in bs) + "];"
+                    rep.append(("R15", f"const {cname}: `{init.strip()[:40]}` folded to its bytes"))
+                elif re.search(r"[A-Za-z_]\w*\s*(::\s*<[^>]*>\s*)?\(", init):
                     # the initializer calls a function (`0x0001_u16.to_be_bytes()`): outside what Verus evaluates for a
                     # constant; the constant is declared with its value left open
                     emit("#[verifier::external_body]")
